@@ -40,7 +40,10 @@ def scratch(prefix="wv-"):
     if not base:
         thorough = "thorough" in sys.argv[2:] or os.environ.get("VERIF_TIER") == "thorough"
         base = "/dev/shm" if os.path.isdir("/dev/shm") and not thorough else tempfile.gettempdir()
-    return tempfile.mkdtemp(prefix=prefix, dir=base)
+    d = tempfile.mkdtemp(prefix=prefix, dir=base)
+    # the harness' own scratch directories live inside it, so a killed worker leaves nothing behind
+    os.environ["WVERIF_SCRATCH"] = d
+    return d
 
 
 def tier_of(argv_tier=None):
